@@ -1266,6 +1266,12 @@ def np_min(it, a):
     if isinstance(a, Masked):
         v, m = a.vec, a.mask
         p = it.path
+        # numpy raises ValueError for the minimum of an empty selection
+        ne = QAny(v.n, lambda i: zbool(m.f(i)))
+        if not p.prove(ne, "numpy.min/selection_non-empty", kind="domain", desc="np.min of a boolean-mask selection: the selection is non-empty", props=it.config.get("implicit_props")):
+            if it.path.choose("np.min of an empty selection raises ValueError"):
+                raise PyRaise(ExcVal(ValueError, ("zero-size array to reduction operation minimum which has no identity",)), origin="numpy.min")
+        p.assume(ne)
         M = p.real("vmin")
         p.add_ufact(UFact(1, lambda i: z3.Implies(zbool(m.f(i)), lift(v.f(i), "real") >= M), [(0, v.n)], "min-bounds"))
         w = p.int("argmin")
@@ -1409,6 +1415,7 @@ def install(it):
     reg("numpy.sqrt", np_sqrt)
     reg("numpy.concatenate", np_concatenate)
     reg("numpy.array", np_array)
+    reg("numpy.asarray", np_asarray)
     reg("numpy.arange", lambda it_, n: Arr.new(Vec(n, lambda i: i if not isinstance(i, int) else z3.IntVal(i), "int")))
     reg("numpy.broadcast_to", np_broadcast_to)
     reg("numpy.ldexp", np_ldexp)
@@ -1505,6 +1512,17 @@ def np_array(it, v, dtype=None):
     raise Unsupported("np.array")
 
 
+def np_asarray(it, v, dtype=None):
+    """np.asarray does NOT copy an ndarray whose dtype already matches: the result aliases the argument"""
+    if isinstance(v, Arr):
+        if dtype is None or _kind_of_dtype(dtype, v.kind) == v.kind:
+            return v
+        return arr_astype(it, v, dtype)
+    if isinstance(v, (int, float)) or is_sym(v):
+        return Arr.new(Vec(1, lambda i: lift(v, "real"), "real"))
+    return np_array(it, v, dtype)
+
+
 def np_broadcast_to(it, v, shape):
     n = _shape_len(shape)
     if isinstance(v, Arr):
@@ -1550,11 +1568,11 @@ def pow2_at(it, e):
             return t
     p.pc.append(t > 0)
     ne = z3.simplify(-e)
-    tn = f(ne)
+    tn = pow2_at(it, ne) if ne.get_id() not in seen else f(ne)
     p.pc.append(t * tn == 1)
-    if ne.get_id() not in seen:
-        seen[ne.get_id()] = ne
-        p.pc.append(tn > 0)
+    if z3.is_app_of(e, z3.Z3_OP_ITE):
+        c, a, b = e.children()
+        p.pc.append(t == z3.If(c, pow2_at(it, a), pow2_at(it, b)))
     if z3.is_add(e):
         parts = e.children()
         prod = None
